@@ -29,6 +29,15 @@ def run_flow(ctx) -> RuleResult:
     func = ctx.repo.function(modname, "_to_string")
     reads = option_reads(ctx, module, func)
     if len(reads) < 5:
+        # the body may live in a private worker / generator that _to_string merely consumes (list(_iter_terms(...)))
+        for call in calls_in(func):
+            if isinstance(call.func, ast.Name) and call.func.id in module.functions and call.func.id != func.name:
+                helper = module.functions[call.func.id]
+                hreads = option_reads(ctx, module, helper)
+                if len(hreads) >= 5:
+                    func, reads = helper, hreads
+                    break
+    if len(reads) < 5:
         raise AnalysisError(f"_to_string: only {len(reads)} option reads found")
     loops = [n for n in ast.walk(func) if isinstance(n, ast.For)]
     term_loop = None
@@ -224,44 +233,48 @@ def run_flow(ctx) -> RuleResult:
              "real", "imag", "format_float_positional", "format_float_scientific", "array2string", "round_"}
     n_text = 0
     seen_text = set()
-    for path in ctx.paths(module, func, max_iter=1, max_paths=4000):
+    # the term text may be produced in a private generator / helper of the same module that _to_string consumes
+    text_funcs = [func] + [f for q, f in module.functions.items()
+                           if f is not func and q.startswith("_") and "." not in q and "str(" in U(f)]
+    for tfunc in text_funcs:
+      for path in ctx.paths(module, tfunc, max_iter=1, max_paths=4000):
         for step in path:
-            for raw in step_exprs(step):
-                for call in calls_in(raw):
-                    if not (isinstance(call.func, ast.Name) and call.func.id in ("str", "repr", "format") and call.args):
-                        continue
-                    arg = strip_tags(step.expand(call.args[0]))
-                    text = U(arg)
-                    if ".coefficients" not in text or (id(call), text) in seen_text:
-                        continue
-                    seen_text.add((id(call), text))
-                    n_text += 1
-                    core = arg
-                    while isinstance(core, ast.Call) and isinstance(core.func, ast.Attribute) and core.func.attr == "item" \
-                            and not core.args:
-                        core = core.func.value
-                    plain = isinstance(core, ast.Subscript) and U(core.value).endswith(".coefficients")
-                    bad = None
-                    for node in ast.walk(arg):
-                        if isinstance(node, ast.Call):
-                            fn = node.func.attr if isinstance(node.func, ast.Attribute) else getattr(node.func, "id", "")
-                            if fn in lossy:
-                                bad = fn
-                        elif isinstance(node, ast.Attribute) and node.attr in ("real", "imag"):
-                            bad = node.attr
-                    if call.func.id == "format" and len(call.args) > 1:
-                        bad = bad or "format spec"
-                    result.ob("the text of a coefficient is produced from the coefficient element itself", plain and not bad,
-                              module.loc(step.orig), text[:80])
-                    if bad:
-                        result.add(Finding(
-                            "R-FLOW", module, "_to_string", call,
-                            f"the coefficient is converted to text as '{U(call)[:80]}': '{bad}' is applied first, so the digits that "
-                            f"are printed are those of a rounded / truncated / projected value and the text no longer denotes the "
-                            f"polynomial (e.g. q0/3 printed with 8 decimals)",
-                            derivation=describe_path(path), construct=f"coefficient text through {bad}"))
-                    elif not plain:
-                        raise AnalysisError(f"_to_string: coefficient text idiom not recognised: {U(call)[:100]}")
+              for raw in step_exprs(step):
+                  for call in calls_in(raw):
+                      if not (isinstance(call.func, ast.Name) and call.func.id in ("str", "repr", "format") and call.args):
+                          continue
+                      arg = strip_tags(step.expand(call.args[0]))
+                      text = U(arg)
+                      if ".coefficients" not in text or (id(call), text) in seen_text:
+                          continue
+                      seen_text.add((id(call), text))
+                      n_text += 1
+                      core = arg
+                      while isinstance(core, ast.Call) and isinstance(core.func, ast.Attribute) and core.func.attr == "item" \
+                              and not core.args:
+                          core = core.func.value
+                      plain = isinstance(core, ast.Subscript) and U(core.value).endswith(".coefficients")
+                      bad = None
+                      for node in ast.walk(arg):
+                          if isinstance(node, ast.Call):
+                              fn = node.func.attr if isinstance(node.func, ast.Attribute) else getattr(node.func, "id", "")
+                              if fn in lossy:
+                                  bad = fn
+                          elif isinstance(node, ast.Attribute) and node.attr in ("real", "imag"):
+                              bad = node.attr
+                      if call.func.id == "format" and len(call.args) > 1:
+                          bad = bad or "format spec"
+                      result.ob("the text of a coefficient is produced from the coefficient element itself", plain and not bad,
+                                module.loc(step.orig), text[:80])
+                      if bad:
+                          result.add(Finding(
+                              "R-FLOW", module, "_to_string", call,
+                              f"the coefficient is converted to text as '{U(call)[:80]}': '{bad}' is applied first, so the digits that "
+                              f"are printed are those of a rounded / truncated / projected value and the text no longer denotes the "
+                              f"polynomial (e.g. q0/3 printed with 8 decimals)",
+                              derivation=describe_path(path), construct=f"coefficient text through {bad}"))
+                      elif not plain:
+                          raise AnalysisError(f"_to_string: coefficient text idiom not recognised: {U(call)[:100]}")
     if n_text < 1:
         raise AnalysisError("_to_string: no str(<coefficient>) found")
     result.floor = 8
